@@ -13,7 +13,7 @@ RULE = ("whole daily runs on generated markets (1-3 stocks/ETF/STAR, optional fu
         "one ledger observation; non-trivial = operation that changes the ledger; distinct = by (operation kind, branch signature)")
 TRUSTED = ["harness wraps Account methods at run time (no change to /repo) and reads the ledger's fields to form pre/post states",
            "market inputs of each step (dividend, split, delisting, bar close) are taken from the generated bundle tables, not from rqalpha's look-ups"]
-ASSUMPTIONS = ["reinvestment: the commission stamped on a reinvestment trade is not deducted from cash (finding F11); theorem bt_reinvest_neutral_fee_not_deducted states the model's (= code's) behaviour",
+ASSUMPTIONS = ["reinvestment: `equity + cash` falls by exactly the fee stamped on the reinvestment trade (theorem bt_reinvest_neutral_up_to_fee; finding F11 — the fee was never deducted — is repaired)",
                "share conversion at delisting is handled in C12 (finding F5)"]
 
 OPS = ["apply_trade", "_on_order_pending_new", "_on_order_unsolicited_update", "_on_bar", "_on_before_trading", "_on_settlement", "deposit_withdraw", "finance_repay"]
